@@ -139,7 +139,28 @@ def check(ctx):
     work = os.path.join(vlib.WORK, "c15_%d" % os.getpid())
     reqs = []; meta = []
     try:
+        # a graph one of whose references has a type that no loaded document defines (a companion specification that was not loaded): writes with both
+        # settings of the switch must leave the graph as it is.  Snapshot comparison only - the writer model has no name for a type that is no node.
+        g0 = nsgen.gen_graph(random.Random(11), n_ns=1, n_nodes=0, hostile=False, with_values=False, dangling=False)
+        ks_ = []
+        for j in range(3):
+            k_ = (g0.uris[0], "i", str(200 + j)); g0.nodes[k_] = dict(cls="UAObject", bname=(g0.uris[0], "U%d" % j), display="U%d" % j, desc=None, attrs={}, value=None); g0.order.append(k_); ks_.append(k_)
+            g0.refs.append(((nsgen.UA, "i", "85"), k_, (nsgen.UA, "i", "35")))
+        g0.refs.append((ks_[0], ks_[1], (g0.uris[0], "i", "9999"))); g0.refs.append((ks_[1], ks_[2], (g0.uris[0], "i", "9998")))
+        files0 = [(n, docs.render(d, random.Random(11))) for n, d, _ in nsgen.serialise(g0, random.Random(11), aliases=False)]
+        st0, G0 = graphprops.build(graphprops.write_files(work, files0))
+        if G0 is not None:
+            snap0 = snapshot(G0); hist0 = []
+            for inc0 in (True, False, True):
+                try:
+                    s_ = io.StringIO(); G0.write_nodeset(s_, g0.uris[0], include_outgoing_instance_level_references=inc0, last_modified=writeprops.T0, publication_date=writeprops.T0)
+                except BaseException: pass
+                hist0.append(["write", g0.uris[0], str(inc0), "None"])
+                d0 = diff_snap(snap0, snapshot(G0))
+                if d0: ctx.fail("C15/graph-changed:write", dict(kind="history", files=files0, history=list(hist0)), "after %r: %s" % (hist0[-1], d0)); break
+            ctx.record(dict(case="undefined-reference-type", history=hist0), True, ["write"])
         for ci in range(12 if ctx.quick() else 120):
+            vlib.pandas_mode(ci)
             if ci == 0:
                 # fixed first case: two non-base namespaces that refer to each other, exported one after the other (independent of the seed)
                 for fs in range(200):
